@@ -20,7 +20,7 @@ MANIFEST = dict(
          'values, cancels, switches, ready-callback order shuffled) against the model driver - every GeckoConfig member after each '
          'switch, the wake time of every sleeper, the state of the shared future - plus the facade rule on real GeckoPump / '
          'GeckoBlower / GeckoAsyncFacade objects; direct monitors on the real code with timer jitter on.'
-         ' Since session 3: the facade rule is exercised on facades built by the real constructor, observing the live table (with the opposite table installed beforehand), and over histories of real facades (reconnect with a pump running, external mode switch, ticks). config_change_state_inventory: the facade keeps no remembered mode. Device changes arrive as misaligned 2-byte words and refresh segments. Session 5: device_change_reaches_the_facade_whatever_happened_before (the notification walk keeps no memory); real-facade histories in which a client callback watching a pump or blower fails once - everything afterwards must still switch the table. A run on the virtual loop in which nothing is runnable and no timer is pending is reported as a verdict (Deadlock), not a hung check. sleepers_share_the_current_future: over the regenerated skeleton of config_sleep the shared future is replaced only when absent or resolved, and the wait on it is the last thing the coroutine does. Round 14: script op `manager` (another task manager entered and left while sleepers sleep).',
+         ' Since session 3: the facade rule is exercised on facades built by the real constructor, observing the live table (with the opposite table installed beforehand), and over histories of real facades (reconnect with a pump running, external mode switch, ticks). config_change_state_inventory: the facade keeps no remembered mode. Device changes arrive as misaligned 2-byte words and refresh segments. Session 5: device_change_reaches_the_facade_whatever_happened_before (the notification walk keeps no memory); real-facade histories in which a client callback watching a pump or blower fails once - everything afterwards must still switch the table. A run on the virtual loop in which nothing is runnable and no timer is pending is reported as a verdict (Deadlock), not a hung check. sleepers_share_the_current_future: over the regenerated skeleton of config_sleep the shared future is replaced only when absent or resolved, and the wait on it is the last thing the coroutine does. Round 14: script op `manager` (another task manager entered and left while sleepers sleep). Round 16: every member of the live table in turn, and all at once, set to a foreign value before each switch - afterwards every setting is the chosen table\'s.',
     note='Partial: the timing clauses are theorems about the tick model (time = integer milliseconds of the virtual clock); real '
          'timer skew of an event loop is outside, the jittered runs only bound it. Assumed: asyncio.wait(timeout=) semantics, one '
          'event loop (the module-level future is foreign to a second loop), cancellation delivered at the next suspension point. '
@@ -141,6 +141,51 @@ def _table_of(active):
     cls = cfg._GeckoActiveConfig if active else cfg._GeckoIdleConfig
     inst = cls()
     return {a: getattr(inst, a) for a in dir(inst) if not a.startswith("__") and not callable(getattr(inst, a))}
+
+
+def check_switch_from_any_table(ctx, only=None):
+    """'complete': after a switch EVERY setting is the chosen mode's, whatever the live table held before - each member in turn (and all
+    at once) is set to a foreign value first (a client tuning a time-out, a test, an earlier partial switch), then the mode is selected"""
+    import geckolib.config as cfg
+
+    async def body(loop):
+        out = []
+        saved = dict(_members(cfg))
+        try:
+            await cfg.config_sleep(0)                 # the shared wake-up future exists (what any sleeper does first)
+            names = sorted(a for a in _table_of(True) if a.isupper())
+            for active in (True, False):
+                want = _table_of(active)
+                for victim in names + ["*"]:
+                    if only is not None and only != [active, victim]:
+                        continue
+                    for a in names:
+                        if victim in (a, "*"):
+                            setattr(cfg.GeckoConfig, a, 987.5)
+                    try:
+                        cfg.set_config_mode(active)
+                        got = _members(cfg)
+                        bad = {a: [got.get(a), want[a]] for a in names if got.get(a) != want[a]}
+                    except Exception as e:  # noqa
+                        bad = {"raised": f"{type(e).__name__}: {e}"}
+                    out.append((active, victim, bad))
+                    await cfg.config_sleep(0)
+        finally:
+            for a, v in saved.items():
+                try:
+                    setattr(cfg.GeckoConfig, a, v)
+                except Exception:  # noqa
+                    pass
+        return out
+    res = qloop.run_q(body)
+    for active, victim, bad in res:
+        ctx.count("evaluations")
+        ctx.hist("switch_from_any_table", "active" if active else "idle")
+        if bad:
+            ctx.violation("switch-incomplete:from-a-changed-table", {"kind": "switch-from-any-table", "case": [active, victim]},
+                          f"after set_config_mode({active}) every setting holds the value of the {'active' if active else 'idle'} table",
+                          {"setting: [live value, table value]": bad, "changed beforehand": victim})
+            return
 
 
 def monitor(script, res):
@@ -700,6 +745,7 @@ def run(ctx):
         correspondence(ctx, exact)
     check_facade(ctx)
     check_facade_real(ctx)
+    check_switch_from_any_table(ctx)
     if exact:
         fam, script, res = exact[len(RACES)]
         ctx.sample({"script": script["ops"][:10], "events": [e[:4] for e in res.get("events", [])[:12]]})
@@ -714,6 +760,11 @@ def run(ctx):
 
 
 def replay(inp):
+    if inp.get("kind") == "switch-from-any-table":
+        from common import Ctx
+        c = Ctx("C17", "quick", 0)
+        check_switch_from_any_table(c, only=inp["case"])
+        return bool(c.violations), c.violations[0]["observed"] if c.violations else "complete"
     if inp.get("kind") == "import":
         try:
             import geckolib.config, geckolib.automation.async_facade  # noqa
